@@ -2479,7 +2479,7 @@ PROPS = {
 }
 
 
-ZOO_PROPS = ("C01", "C03", "C04", "C06", "C09", "C10", "C11", "C13", "C14")
+ZOO_PROPS = ("C01", "C03", "C04", "C06", "C09", "C10", "C11", "C12", "C13", "C14")
 
 
 def zoo_part(rep, pid):
